@@ -115,6 +115,7 @@ type gen struct {
 	removedOne                                            bool
 	dead                                                  map[raftio.NodeInfo]bool
 	noWipeShared                                          bool // never wipe a replica whose Tan db is shared
+	importBias                                            bool // ImportSnapshot is frequent (C20 part)
 	imports                                               int
 }
 
@@ -418,6 +419,9 @@ func (g *gen) next(havePending bool, allowReopen bool) wop {
 		w[opReopen] = 3
 		if g.imports < 2 {
 			w[opImport] = 1
+		}
+		if g.importBias && g.imports < 4 {
+			w[opImport] = 6
 		}
 	}
 	if havePending {
